@@ -2,6 +2,8 @@
 PROP = {'level': 'proof',
  # every candidate of the shrinker is a real network exchange: bound the search (./check reads these two keys)
  'shrink_rounds': 3, 'shrink_candidates': 20,
+ # regenerated fact tied in Facts/TieC08.lean: the argument of time.NewTicker is c.Retry (1 holds / 2 unknown / 0 violated)
+ 'facts': ['tickerPeriodIsRetry'],
  'rule': 'One evaluation = one scenario run on the real Client.Exchange over loopback UDP: peer behaviour (silent; closed port => ICMP => read '
          'error; reply at once or only after k retransmissions, preceded by garbage and followed by more datagrams; flood of garbage) x '
          'cancellation (context already cancelled / deadline already passed; cancel N ms after the peer received its j-th datagram; '
@@ -23,7 +25,9 @@ PROP = {'level': 'proof',
          'request, verbatim, no resend without retry, silence, clean-up). Timed layer: the harness also prints the arrival instant of every request '
          'datagram at the peer and the instant Exchange had returned by (whole ms since the instant just before Exchange was called) and the '
          'interval; the driver evaluates on these numbers the upper bounds the timed machine RV.Exchange.Timed proves for every well-timed run '
-         '(i-th datagram not before i*Retry; at most 1 + end/Retry datagrams; at most one when Retry <= 0) with an allowance of 1 ms.',
+         '(i-th datagram not before t0 + i*Retry; at most 1 + (end - t0)/Retry datagrams; at most one when Retry <= 0) with an allowance of 1 ms, t0 being the instant the '
+         'Dialer\'s Control hook returned (a dial that takes 0.6 x Retry in one scenario in three). Only upper bounds on the frequency are asserted on observations; that the '
+         'ticker is not SLOWER than configured rests on the regenerated fact tickerPeriodIsRetry (the argument of time.NewTicker is c.Retry) and the loose count class.',
  'level_text': 'Lean theorems about the Exchange logic machine (dial, first write, ticker only if Retry > 0, helper goroutine, context, read '
                'completions, deferred cancel/close) for every event sequence: every write is the byte string Encode produced; at most one write '
                'when Retry <= 0; nothing is written and the result is fixed once returned; a read error with the context done returns the '
